@@ -331,6 +331,13 @@ def r10(ctx: Context) -> None:
                     good = st
             ok = from_store and good is not None
             ctx.add("R10", key, ok, f.loc(c), "" if ok else ("the expected value is not read from the store" if not from_store else f"no unconditional `if not <cond>.is_satisfied_by(CronContext(last_execution={e.id})): return None` precedes the compare-and-swap: a runner whose cache is stale passes the schedule test on the cached value, reads the fresh stored value, and swaps successfully - the same tick fires twice"))
+            # ... and the schedule is consulted on EVERY path to the swap, also when nothing is stored yet ("polls outside
+            # any window yield none" - a condition that never fired is no exception)
+            from ..flow import func_cfg, some_path_avoids
+
+            g = func_cfg(ctx.repo, f)
+            sat = not some_path_avoids(g, f.node, c, lambda x: isinstance(x, ast.Call) and call_name(x) == "is_satisfied_by", parent_map(f.node))
+            ctx.add("R10", f"{f.qualname}::schedule-consulted-on-every-path-to-the-swap", bool(sat), f.loc(c), "" if sat else "a path reaches store_last_cron_execution without `is_satisfied_by` having held (the tests sit under `if <last execution>:` guards): the first poll of a condition that never fired produces an occurrence at any time of the year")
     ctx.floor("R10", "cron compare-and-swap call sites", n, 1)
 
 
@@ -400,6 +407,28 @@ def r12(ctx: Context, sites) -> None:
     ctx.floor("R12", "replace statements of the trigger backend", len(rows), 4)
 
 
+def r14(ctx: Context) -> None:
+    """An occurrence is evaluated against the status the orchestrator holds, not against a time-limited local copy."""
+    ctx.rule("R14", "occurrence contexts carry the orchestrator's status: no method of the trigger component reads the `status` property of an invocation object it was handed (DistributedInvocation.status answers from a cache for `cached_status_time` seconds; a RUNNING read shortly before the body raised makes the FAILED occurrence look RUNNING, its condition is not satisfied and the handler is launched zero times) - report_invocation_result already asks the orchestrator")
+    di = ctx.repo.cls("DistributedInvocation")
+    st = di.methods.get("status")
+    cached = st is not None and st.is_property and "_cached_status" in ast.unparse(st.node)
+    ctx.add("R14", "DistributedInvocation.status::is-a-cached-read", bool(cached), st.loc() if st else "", "" if cached else "DistributedInvocation.status no longer answers from a cache: this rule's premise vanished")
+    bt = ctx.repo.cls("BaseTrigger")
+    n = 0
+    for c in [bt] + [x for x in ctx.repo.classes.values() if x is not bt and bt in x.mro()]:
+        for f in c.methods.values():
+            inv_params = [p for p in f.params[1:] if "invocation" in p and not p.endswith(("_id", "_ids"))]
+            ann = {a.arg for a in f.node.args.args + f.node.args.kwonlyargs if a.annotation is not None and "Invocation" in ast.unparse(a.annotation) and "InvocationId" not in ast.unparse(a.annotation) and "InvocationStatus" not in ast.unparse(a.annotation)}
+            objs = set(inv_params) | ann
+            if not objs:
+                continue
+            n += 1
+            bad = [x for x in walk_no_nested(f.node) if isinstance(x, ast.Attribute) and x.attr == "status" and isinstance(x.value, ast.Name) and x.value.id in objs and isinstance(x.ctx, ast.Load)]
+            ctx.add("R14", f"{f.qualname}::status-read-from-the-orchestrator", not bad, f.loc(bad[0]) if bad else f.loc(), "" if not bad else f"`{ast.unparse(bad[0])}` is the invocation object's cached status (up to cached_status_time old): the occurrence is built with the status the object saw earlier, not the one just written")
+    ctx.floor("R14", "trigger methods handed an invocation object", n, 2)
+
+
 def run(ctx: Context) -> None:
     sites = sqlmini.sites(ctx.repo)
     loop = ctx.repo.cls("BaseTrigger").methods.get("trigger_loop_iteration")
@@ -414,6 +443,7 @@ def run(ctx: Context) -> None:
     r10(ctx)
     r11(ctx)
     r12(ctx, sites)
+    r14(ctx)
     # R13: the trigger stores themselves (shared with C16/R11, R12): a claim that could not be decided is an error, not a
     # lost race; a reported occurrence is not dropped by a concurrent clean-up
     from . import c16
